@@ -14,7 +14,7 @@ PY = "/venv/bin/python"
 def zygote_env(hashseed):
     env = dict(os.environ)
     env.update({
-        "PYTHONHASHSEED": str(hashseed), "PYTHONPATH": "/repo", "PYTHONDONTWRITEBYTECODE": "1",
+        "PYTHONHASHSEED": str(hashseed), "PYTHONPATH": os.environ.get("CIJSIM_REPO", "/repo"), "PYTHONDONTWRITEBYTECODE": "1",
         "OPENBLAS_NUM_THREADS": "1", "OMP_NUM_THREADS": "1", "MKL_NUM_THREADS": "1", "NUMEXPR_NUM_THREADS": "1",
         "PYTHONWARNINGS": "ignore", "MPLBACKEND": "Agg",
     })
